@@ -18,6 +18,8 @@ ops
            "best":{"energy":{"v":q,"m":mapping}|null,"latency":…,"edp":…},
            "front":[[ints]…] (canonical front of the D-scaled objective vectors) , "exact":b }
         "exact" = every coordinate × D was an integer (otherwise "front" is null: nothing is rounded)
+        optional "want":[[ints]…] (scan and scan2): → "found": for each wanted objective vector that occurs, a witness
+        ({"v","m"} resp. {"v","a","b"})
   {"op":"eval","spec":S,"mapping":M}               → {"inSpace":b,"clauses":{…},"cost":{"energy":q,"latency":q,"usage":[q…]}|null,"fits":b}
   {"op":"list","spec":S,"limit":n}                 → first n members of `all S`
   {"op":"scan2","spec0":S0,"spec1":S1,"x0":t,"x1":t,"objs":…,"D":n}   two-Einsum chain (see Spec/Mapspace.lean):
@@ -104,8 +106,9 @@ structure Scan where
   bP : Option Best := none
   acc : Acc := {}
   exact : Bool := true
+  found : List (Vec × Mapping Nat) := []
 
-def scanStep (s : SpecDesc) (o : Objs) (D : Nat) (st : Scan) (m : Mapping Nat) : Scan :=
+def scanStep (s : SpecDesc) (o : Objs) (D : Nat) (want : List Vec) (st : Scan) (m : Mapping Nat) : Scan :=
   match cost s m with
   | none => { st with n := st.n + 1, uneval := st.uneval + 1 }
   | some c =>
@@ -116,7 +119,14 @@ def scanStep (s : SpecDesc) (o : Objs) (D : Nat) (st : Scan) (m : Mapping Nat) :
     if !st.exact then st else
     match scaleVec D (c.vecQ o) with
     | none => { st with exact := false }
-    | some v => { st with acc := st.acc.push v }
+    | some v =>
+      let st := { st with acc := st.acc.push v }
+      if want.contains v && !(st.found.any (fun p => p.1 == v)) then { st with found := (v, m) :: st.found } else st
+
+def wantOf (req : Json) : List Vec :=
+  match (field? req "want").bind getArr? with
+  | some a => a.toList.filterMap intList?
+  | none => []
 
 def bestJson (b : Option Best) : Json :=
   match b with
@@ -202,6 +212,7 @@ structure Scan2 where
   bL : Option Best2 := none
   bP : Option Best2 := none
   acc : Acc := {}
+  found : List (Vec × Vec × Vec) := []
 
 /-- Peak bits (× D) per level of a pair. -/
 def peakI (a b : HalfI) : List Int :=
@@ -220,7 +231,7 @@ def fitsI (caps : List (Option Rat)) (peak : List Int) : Bool :=
 def usageI (caps : List (Option Rat)) (peak : List Int) : List Int :=
   List.zipWith (fun (c : Option Rat) (p : Int) => match c with | none => 0 | some _ => p) caps peak
 
-def scanPairs (caps : List (Option Rat)) (o : Objs) (A B : List HalfI) : Scan2 :=
+def scanPairs (caps : List (Option Rat)) (o : Objs) (want : List Vec) (A B : List HalfI) : Scan2 :=
   A.foldl (fun st a =>
     (B.filter (fun b => b.key == a.key)).foldl (fun st b =>
       let peak := peakI a b
@@ -229,9 +240,16 @@ def scanPairs (caps : List (Option Rat)) (o : Objs) (A B : List HalfI) : Scan2 :
       let l := a.l + b.l
       let v : Vec := (if o.energy then [e] else []) ++ (if o.latency then [l] else []) ++
         (if o.usage then usageI caps peak else [])
-      { st with pairs := st.pairs + 1, valid := st.valid + 1,
-                bE := Best2.upd st.bE e a.raw b.raw, bL := Best2.upd st.bL l a.raw b.raw,
-                bP := Best2.upd st.bP (e * l) a.raw b.raw, acc := st.acc.push v }) st) {}
+      let st : Scan2 :=
+        { st with
+          pairs := st.pairs + 1
+          valid := st.valid + 1
+          bE := Best2.upd st.bE e a.raw b.raw
+          bL := Best2.upd st.bL l a.raw b.raw
+          bP := Best2.upd st.bP (e * l) a.raw b.raw
+          acc := st.acc.push v }
+      if want.contains v && !(st.found.any (fun p => p.1 == v)) then { st with found := (v, a.raw, b.raw) :: st.found }
+      else st) st) {}
 
 def best2Json (b : Option Best2) : Json :=
   match b with
@@ -259,11 +277,12 @@ def handle (req : Json) : Json :=
       let part : Nat × Nat := match (field? req "part").bind natList? with
         | some [i, k] => (i, k)
         | _ => (0, 1)
-      let st := foldAllPart s part.1 part.2 (scanStep s o D) ({} : Scan)
+      let st := foldAllPart s part.1 part.2 (scanStep s o D (wantOf req)) ({} : Scan)
       Json.mkObj [
         ("n", ofNat st.n), ("valid", ofNat st.valid), ("unevaluable", ofNat st.uneval),
         ("best", Json.mkObj [("energy", bestJson st.bE), ("latency", bestJson st.bL), ("edp", bestJson st.bP)]),
         ("exact", Json.bool st.exact),
+        ("found", Json.arr (st.found.map (fun p => Json.mkObj [("v", ofIntList p.1), ("m", mappingJson p.2)])).toArray),
         ("front", if st.exact then rowsJson (frontFast st.acc.rows) else Json.null)]
     | _, _, _ => err "malformed"
   | some "eval" =>
@@ -291,12 +310,14 @@ def handle (req : Json) : Json :=
       if !(h0.exact && h1.exact) then Json.mkObj [("exact", Json.bool false)] else
       let A := (canonFast h0.acc.rows).filterMap (decHalf s0.nLevels)
       let B := (canonFast h1.acc.rows).filterMap (decHalf s0.nLevels)
-      let st := scanPairs (capsI s0 D) o A B
+      let st := scanPairs (capsI s0 D) o (wantOf req) A B
       Json.mkObj [
         ("exact", Json.bool true),
         ("n0", ofNat h0.n), ("n1", ofNat h1.n), ("halves0", ofNat A.length), ("halves1", ofNat B.length),
         ("pairs", ofNat st.pairs), ("valid", ofNat st.valid),
         ("best", Json.mkObj [("energy", best2Json st.bE), ("latency", best2Json st.bL), ("edp", best2Json st.bP)]),
+        ("found", Json.arr (st.found.map (fun p =>
+          Json.mkObj [("v", ofIntList p.1), ("a", ofIntList p.2.1), ("b", ofIntList p.2.2)])).toArray),
         ("front", rowsJson (frontFast st.acc.rows))]
     | _, _, _, _, _, _ => err "malformed"
   | some "find" =>
